@@ -45,6 +45,9 @@ type devScript struct {
 	TdReport     []byte `json:"td_report"`   // 1024 bytes the device returns for the report request
 	Quote        []byte `json:"quote"`       // bytes the device writes into the buffer
 	FillRest     byte   `json:"fill_rest"`   // what the device leaves in the rest of the buffer
+	// Silent: the quote request completes with its result code but the VMM filled in nothing (1: header and buffer untouched;
+	// 2: only the status is written). No quote was written, so no quote can come back.
+	Silent int `json:"silent,omitempty"`
 }
 
 type devEvent struct {
@@ -84,6 +87,13 @@ func (d *scriptDev) Ioctl(command uintptr, arg any) (uintptr, error) {
 		if d.s.QuoteErr {
 			return 0, errors.New("scripted: quote ioctl failed")
 		}
+		if d.s.Silent == 1 {
+			return uintptr(d.s.QuoteResult), nil
+		}
+		if d.s.Silent == 2 && hdr != nil {
+			hdr.Status = d.s.Status
+			return uintptr(d.s.QuoteResult), nil
+		}
 		if hdr != nil {
 			for i := range hdr.Data {
 				hdr.Data[i] = d.s.FillRest
@@ -108,7 +118,7 @@ func deviceProblem(s *devScript) (problem string, ok bool) {
 	if pv, st := mon.Guard(func() { got, err = client.GetRawQuote(d, rd) }); pv != "" {
 		return "GetRawQuote panics: " + pv + "\n" + st, false
 	}
-	should := !s.ReportErr && s.ReportResult == 0 && !s.QuoteErr && s.QuoteResult == 0 && s.Status == 0 && s.OutLen > 0 && s.OutLen <= labi.ReqBufSize
+	should := !s.ReportErr && s.ReportResult == 0 && !s.QuoteErr && s.QuoteResult == 0 && s.Status == 0 && s.OutLen > 0 && s.OutLen <= labi.ReqBufSize && s.Silent == 0
 	ok = err == nil
 	// requests the device saw
 	if len(d.log) == 0 || d.log[0].Cmd != "report" {
@@ -147,6 +157,9 @@ func deviceProblem(s *devScript) (problem string, ok bool) {
 			return fmt.Sprintf("returned %d bytes, the device wrote OutLen=%d; contents equal=%v", len(got), s.OutLen, bytes.Equal(got, buf[:min(len(got), len(buf))])), ok
 		}
 	case err == nil:
+		if s.Silent != 0 {
+			return fmt.Sprintf("the quote request completed without the device writing an OutLen or a quote (silent=%d), yet GetRawQuote returned %d bytes and a nil error (they start with the TD report: %v)", s.Silent, len(got), len(got) >= 16 && bytes.Equal(got[:16], append(append([]byte{}, s.TdReport...), make([]byte, 16)...)[:16])), ok
+		}
 		return fmt.Sprintf("device outcome (reportErr=%v result=%d quoteErr=%v result=%d status=%#x OutLen=%d) is not a success, yet GetRawQuote returned %d bytes and a nil error", s.ReportErr, s.ReportResult, s.QuoteErr, s.QuoteResult, s.Status, s.OutLen, len(got)), ok
 	case got != nil:
 		return fmt.Sprintf("error returned together with %d bytes of data", len(got)), ok
@@ -244,6 +257,51 @@ func c15(x *mon.Ctx) {
 			x.Violation("result-stability", fmt.Sprint(k), prob, "none", k)
 		}
 		x.Note("result-stability", fmt.Sprint(k), prob == "", false, prob == "")
+	}
+
+	// ---- a device that completes the quote request without writing anything, alone and after requests that did write
+	//      (what an earlier request left behind is not this request's answer)
+	{
+		sil := 0
+		for k := 0; k < 24; k++ {
+			for _, mode := range []int{1, 2} {
+				var rd [64]byte
+				r.Read(rd[:])
+				tdr := randBytes(r, 1024)
+				var hist []string
+				prob := ""
+				// earlier requests of the history: none / a success / an oversized OutLen / an in-flight status with an OutLen
+				for h := 0; h < k%4+1 && prob == ""; h++ {
+					var pre *devScript
+					switch (k + h) % 4 {
+					case 1:
+						pre = &devScript{OutLen: uint32(1500 + 64*k), Quote: randBytes(r, 1500+64*k), ReportData: rd[:], TdReport: tdr, FillRest: 0x5a}
+					case 2:
+						pre = &devScript{OutLen: labi.ReqBufSize + 1, Quote: randBytes(r, 900), ReportData: rd[:], TdReport: tdr}
+					case 3:
+						pre = &devScript{OutLen: 2048, Status: 0xffffffffffffffff, Quote: randBytes(r, 2048), ReportData: rd[:], TdReport: tdr}
+					}
+					if pre != nil {
+						p, _ := deviceProblem(pre)
+						hist = append(hist, fmt.Sprintf("outlen=%d,status=%#x", pre.OutLen, pre.Status))
+						if p != "" {
+							prob = "earlier request of the history: " + p
+						}
+					}
+				}
+				s := &devScript{Silent: mode, ReportData: rd[:], TdReport: tdr}
+				if prob == "" {
+					prob, _ = deviceProblem(s)
+				}
+				param := fmt.Sprintf("mode%d/after%v#%d", mode, hist, k)
+				if prob != "" {
+					x.Violation("silent-device", param, prob, "device", s)
+				}
+				x.Note("silent-device", param, false, false, prob == "")
+				sil++
+			}
+		}
+		x.Require("silent-device", 0, sil, sil)
 	}
 
 	// ---- GetQuote == QuoteToProto(GetRawQuote)
